@@ -303,9 +303,9 @@ def rule_replace(program, ctx, prop=P, rid="C13.replace"):
         ctx.ok(rid, fn, "same-id replacement precedes every answer to the REQ")
 
 
-def rule_cancel(program, ctx):
-    rid = ctx.rule(
-        "C13.cancel",
+def rule_cancel(program, ctx, prop=P, rid="C13.cancel"):
+    ctx.rule(
+        rid,
         "BaseStorage.unsubscribe(client, sub_id): cancel() of the subscription before its deletion; whole-client form deletes the "
         "registry entry; BaseSubscription.cancel cancels the query task; start_client finally: unsubscribe(client_id), "
         "send_task.cancel() and await send_task",
@@ -317,10 +317,10 @@ def rule_cancel(program, ctx):
     cancels = {n: set(NORMAL) for n in cfg.stmt_nodes(lambda s: any(isinstance(c.func, ast.Attribute) and c.func.attr == "cancel" and "sub_id" in ast.unparse(c) for c in own_calls(s)), kinds=("stmt",))}
     pops = cfg.stmt_nodes(lambda s: any(isinstance(c.func, ast.Attribute) and c.func.attr == "pop" and "sub_id" in ast.unparse(c) for c in own_calls(s)), kinds=("stmt",))
     if not dels and not pops:
-        ctx.bad(finding_func(P, rid, fn, "unsubscribe(client, sub_id) no longer removes the subscription from the registry", text="def unsubscribe(...)"))
+        ctx.bad(finding_func(prop, rid, fn, "unsubscribe(client, sub_id) no longer removes the subscription from the registry", text="def unsubscribe(...)"))
     for d in dels:
         if must_pass(cfg, cancels, [d]):
-            ctx.bad(finding_at(P, rid, cfg.ast_of(d), "the subscription is removed from the registry without cancel(): its stored-query task keeps sending"))
+            ctx.bad(finding_at(prop, rid, cfg.ast_of(d), "the subscription is removed from the registry without cancel(): its stored-query task keeps sending"))
         else:
             ctx.ok(rid, cfg.ast_of(d), "cancel() precedes removal of the subscription")
     whole = cfg.stmt_nodes(lambda s: isinstance(s, ast.Delete) and "sub_id" not in ast.unparse(s) and "client_id" in ast.unparse(s), kinds=("stmt",))
@@ -328,7 +328,7 @@ def rule_cancel(program, ctx):
     if whole:
         ctx.ok(rid, cfg.ast_of(whole[0]), "disconnect form removes the client's whole registry entry")
     else:
-        ctx.bad(finding_func(P, rid, fn, "unsubscribe(client_id) does not remove the client's registry entry", text="def unsubscribe(...) :: whole client"))
+        ctx.bad(finding_func(prop, rid, fn, "unsubscribe(client_id) does not remove the client's registry entry", text="def unsubscribe(...) :: whole client"))
     # the single-subscription form: selected by `sub_id is not None` ("" is a legal id), and it never removes the client's whole entry
     # (subscribe keeps a reference to that dict across its own `await self.unsubscribe(client_id, sub_id)`)
     def single(expr, pol):
@@ -341,14 +341,14 @@ def rule_cancel(program, ctx):
 
     truthy = [n for n in walk_no_nested(fn) if isinstance(n, (ast.If, ast.IfExp)) and any((isinstance(x, ast.Name) and x.id == "sub_id" and not isinstance(getattr(x, "_parent", None), (ast.Compare, ast.Subscript, ast.Call, ast.Tuple, ast.Index))) for x in ast.walk(n.test))]
     if truthy:
-        ctx.bad(finding_at(P, rid, truthy[0], "unsubscribe selects its form by the truthiness of sub_id: the legal subscription id \"\" takes the whole-client branch, so CLOSE \"\" (or a "
+        ctx.bad(finding_at(prop, rid, truthy[0], "unsubscribe selects its form by the truthiness of sub_id: the legal subscription id \"\" takes the whole-client branch, so CLOSE \"\" (or a "
                            "REQ re-using \"\") drops every subscription of the connection"))
     else:
         ctx.ok(rid, fn, "form selected by `sub_id is not None`")
     wf = test_edges(cfg, whole_form)
     for w in whole:
         if must_pass(cfg, wf, [w]):
-            ctx.bad(finding_at(P, rid, cfg.ast_of(w), "closing one subscription can remove the client's whole registry entry: a REQ that replaces the connection's only subscription then "
+            ctx.bad(finding_at(prop, rid, cfg.ast_of(w), "closing one subscription can remove the client's whole registry entry: a REQ that replaces the connection's only subscription then "
                                "registers the new one in a detached dict - a later CLOSE cannot find it and it keeps sending"))
         else:
             ctx.ok(rid, cfg.ast_of(w), "the whole entry is removed only in the disconnect form (sub_id is None)")
@@ -356,16 +356,16 @@ def rule_cancel(program, ctx):
     if any(isinstance(c.func, ast.Attribute) and c.func.attr == "cancel" and dotted(c.func.value) == "self.query_task" for c in ast.walk(cn) if isinstance(c, ast.Call)):
         ctx.ok(rid, cn, "BaseSubscription.cancel -> query_task.cancel()")
     else:
-        ctx.bad(finding_func(P, rid, cn, "BaseSubscription.cancel does not cancel the stored-query task", text="def cancel(...)"))
+        ctx.bad(finding_func(prop, rid, cn, "BaseSubscription.cancel does not cancel the stored-query task", text="def cancel(...)"))
     for ci in subscription_classes(program):
         if "cancel" in ci.methods:
             f2 = ci.methods["cancel"]
             if not any(isinstance(c, ast.Call) and (dotted(c.func).endswith("query_task.cancel") or (isinstance(c.func, ast.Attribute) and c.func.attr == "cancel" and isinstance(c.func.value, ast.Call) and dotted(c.func.value.func) == "super")) for c in ast.walk(f2)):
-                ctx.bad(finding_func(P, rid, f2, "cancel override does not cancel the query task", text="def cancel(...)"))
+                ctx.bad(finding_func(prop, rid, f2, "cancel override does not cancel the query task", text="def cancel(...)"))
     sc = program.func("nostr_relay.web:start_client")
     outer = next((t for t in sc.body if isinstance(t, ast.Try) and t.finalbody), None)
     if outer is None:
-        ctx.bad(finding_func(P, rid, sc, "start_client has no outer try/finally", text="def start_client(...)"))
+        ctx.bad(finding_func(prop, rid, sc, "start_client has no outer try/finally", text="def start_client(...)"))
         return
     fin = ast.Module(body=outer.finalbody, type_ignores=[])
     texts = [ast.unparse(s) for s in ast.walk(fin) if isinstance(s, ast.Call)]
@@ -378,7 +378,7 @@ def rule_cancel(program, ctx):
         if okv:
             ctx.ok(rid, outer.finalbody[0], f"finally: {what}")
         else:
-            ctx.bad(finding_func(P, rid, sc, f"start_client's finally lacks `{what}`: the connection's subscriptions/sender outlive it", text=f"finally :: {what}"))
+            ctx.bad(finding_func(prop, rid, sc, f"start_client's finally lacks `{what}`: the connection's subscriptions/sender outlive it", text=f"finally :: {what}"))
 
 
 def rule_sender(program, ctx):
@@ -595,6 +595,31 @@ def rule_typed(program, ctx, prop=P, rid="C13.typed"):
         ctx.info(rid, ci.node, "no type-tested client value in the NostrQuery validators")
 
 
+def rule_sentinel_sites(program, ctx, prop=P, rid="C13.sentinel"):
+    ctx.rule(
+        rid,
+        "who-may-put: the end-of-stored-events sentinel `(sub_id, None)` is queued only by the run_query of a subscription class (its finally) and by "
+        "BaseStorage.subscribe (REQs that start no query) - a second producer (e.g. cancel()) makes a REQ that is closed or replaced while its query runs receive EOSE twice",
+        floor=2,
+    )
+    owners = ("run_query", "subscribe")
+    n = 0
+    for m in program.modules.values():
+        if m.rel.startswith("<dep>") or not m.name.startswith("nostr_relay.storage"):
+            continue
+        for c in ast.walk(m.tree):
+            if isinstance(c, ast.Call) and isinstance(c.func, ast.Attribute) and c.func.attr in ("put", "put_nowait") or (isinstance(c, ast.Call) and isinstance(c.func, ast.Name) and c.func.id in ("queue_put",)):
+                if c.args and isinstance(c.args[0], ast.Tuple) and len(c.args[0].elts) == 2 and isinstance(c.args[0].elts[1], ast.Constant) and c.args[0].elts[1].value is None:
+                    q = qual_of(c)
+                    n += 1
+                    if q.split(".")[-1] in owners:
+                        ctx.ok(rid, c, f"sentinel queued in {q}")
+                    else:
+                        ctx.bad(finding_at(prop, rid, c, f"{q} queues the EOSE sentinel as well: together with the `finally` of run_query a cancelled / replaced subscription gets two EOSE"))
+    if not n:
+        raise AnalysisError("no sentinel put found")
+
+
 def run(program, ctx):
     from ..lib import rule_awaited
 
@@ -612,6 +637,12 @@ def run(program, ctx):
 
     # subscriptions live in a registry keyed by the connection's ClientID object: identity, not the (16 random bits per address) id string
     c05.rule_registry(program, ctx, prop=P, rid="C13.registry")
+    rule_sentinel_sites(program, ctx)
+    from . import c19
+
+    # a REQ that the message validator drops is answered with neither EOSE nor NOTICE
+    c19.rule_shape(program, ctx, prop=P, rid="C13.shape")
+    c05.rule_deliver(program, ctx, prop=P, rid="C13.deliver")
     ctx.not_decided += [
         "outcomes of races between a running query task and REQ/CLOSE beyond the liveness rule",
         "bounded-exhaustive command sequences; ordering of stored events before EOSE inside the engine",
